@@ -15,7 +15,7 @@ ASSUMPTIONS = ["1-D domains (nely=0) are outside the property's quantifier (2D a
 
 
 def budget(tier):
-    return {"examples": 600 if tier == "quick" else 20000, "shards": 16}
+    return {"examples": 2400 if tier == "quick" else 40000, "shards": 16}
 
 
 def enumerate_cases(tier):
